@@ -9,5 +9,6 @@ CONSTANTS
   OpsAtEnd = 2
   Interleave = FALSE
   BadArgs = TRUE
+  Iters = FALSE
 INVARIANTS HistoryIndependent MarkdownEquivalent NoDuplicateSiblings
 CHECK_DEADLOCK FALSE
